@@ -86,6 +86,22 @@ def run(ctx):
             worst[key] = max(worst.get(key, 0), d)
             if d > tol:
                 ctx.report('fft-error', '%s/%s: %s differs from the exact result by %d units of 2^-32 (allowed %d)' % (be, bu, tag, d, tol), {'case': line[:200000], 'backend': be, 'build': bu, 'maxdiff': d, 'tol': tol, 'op': tag})
+    # the same operations with every array (operands, results, the library's temporaries) ending flush with an inaccessible page (harness/guard_new.h):
+    # an over-wide load or a loop tail past the end of a coefficient array faults instead of reading whatever the heap holds there
+    seen = set(); gsub = []
+    for c in cases:
+        k = c[0].split(' ')[0]
+        if k not in seen or thorough and len(gsub) < 60: seen.add(k); gsub.append(c)
+    for (be, bu), exe in exes.items():
+        outs = vlib.run_lines(exe, ['guard 1'] + [c[1] for c in gsub], timeout=1800)[1:]
+        for (tag, line, ex, tol), o in zip(gsub, outs):
+            ctx.count((be, bu, 'guard', tag))
+            if o.startswith('CRASH'):
+                ctx.report('fft-out-of-bounds', '%s/%s: %s dies when every coefficient array ends at an inaccessible page (it reads or writes past the end of an array): %s' % (be, bu, tag, o[:80]),
+                           {'case': line[:200000], 'backend': be, 'build': bu, 'guard': 1, 'op': tag}); break
+            d = maxdiff(ints(o), ex)
+            if d > tol: ctx.report('fft-error', '%s/%s: %s (arrays at page ends) differs from the exact result by %d units (allowed %d)' % (be, bu, tag, d, tol), {'case': line[:200000], 'backend': be, 'build': bu, 'guard': 1, 'maxdiff': d, 'tol': tol, 'op': tag})
+    ctx.cov['guard_page_operations_per_backend'] = len(gsub)
     # cross-back-end agreement is implied by agreement with the exact value; record the worst figures
     ctx.hypotheses['worst observed difference (units of 2^-32)'] = {k: v for k, v in sorted(worst.items())}
     ctx.cov['operations_per_backend'] = len(cases); ctx.cov['backends'] = ['%s/%s' % k for k in exes]
@@ -98,6 +114,7 @@ def replay(ctx, data):
     be = data.get('backend', 'spqlios-fma'); bu = data.get('build', 'optim')
     if 'case' not in data: print(json.dumps(data, indent=1)[:2000]); return 0
     exe = vlib.build_harness('fft_drv.cpp', vlib.build_lib(bu), be, bu)
-    o = vlib.run_lines(exe, [data['case']], timeout=600)[0]
+    o = vlib.run_lines(exe, (['guard 1'] if data.get('guard') else []) + [data['case']], timeout=600)[-1]
+    if data.get('guard'): print('%s/%s %s with arrays ending at inaccessible pages: %s' % (be, bu, data.get('op'), o[:100])); return 1 if o.startswith('CRASH') else 0
     print('%s/%s %s: recorded max difference %s (allowed %s); implementation output now starts %s' % (be, bu, data.get('op'), data.get('maxdiff'), data.get('tol'), o.split()[:4]))
     return 0
